@@ -2301,7 +2301,11 @@ class AllConnGraph(nx.DiGraph):
                 val = self.get_val_from_children(model, node, children_meta, node_meta.defaults,
                                                  auto)
                 if val is not None:
-                    if node[1].startswith('_auto_ivc.'):
+                    if not self._first_pass and node_meta.val is not None:
+                        # already resolved in the first pass; it may have been set by the user
+                        # since then, so don't go back to the default / children value.
+                        pass
+                    elif node[1].startswith('_auto_ivc.'):
                         val = deepcopy(val)
                         node_meta.val = val
                         if node_meta._locmeta is not None:
